@@ -49,6 +49,23 @@ def gen_files(ctx):
         p = os.path.join(d, f"f{k}.vcd")
         open(p, "wb").write(hdr + body)
         files.append(p)
+    # time tables that are irregular but span exactly (first step) x (entries - 1), evenly spaced ones and two-entry tables:
+    # value_at_time must find the entry by its time, not by arithmetic on the spacing
+    tables_ = [[0, 10, 15, 30], [100, 104, 105, 106, 107, 120], [0, 5, 6, 15], [3, 6, 7, 8, 15], [0, 10, 20, 30], [7, 9], [0, 1, 2, 3, 4, 5, 6, 21]]
+    for _ in range(6 if ctx.tier == "quick" else 60):
+        n = rng.randint(3, 9)
+        step = rng.randint(2, 12)
+        inner = sorted(rng.sample(range(1, step * (n - 1)), n - 2))
+        tables_.append([0] + inner + [step * (n - 1)])
+    for k, tt in enumerate(tables_):
+        lines = ["$timescale 1ns $end", "$scope module top $end", "$var wire 1 ! a $end", "$var wire 8 # b $end", "$upscope $end", "$enddefinitions $end"]
+        for j, t in enumerate(tt):
+            lines += [f"#{t}", f"{j & 1}!"]
+            if j % 2 == 0:
+                lines.append(f"b{(j * 37) % 256:08b} #")
+        p = os.path.join(d, f"tt{k}.vcd")
+        open(p, "w").write("\n".join(lines) + "\n")
+        files.append(p)
     return files
 
 
